@@ -27,6 +27,8 @@ def run(ctx: core.Ctx):
     ctx.lean_stage()
     b2check.run_b2(ctx, jobs, ["C12"], label="long idle sessions")
     b2check.run_b2(ctx, jobs_slow, MONS, label="slow (blocking) writes, monitor only", accept=False)
+    b2check.run_b2(ctx, lambda rng, th: [(gen.conn_busy_callback(rng), rng.randrange(10 ** 9), rng.choice([0, 3])) for _ in range(3000 if th else 100)],
+                   MONS, label="message callbacks still running when the keep-alive timer expires")
     ctx.info["rule"] = ("sessions of 5..20 keep-alive intervals of virtual time with random command patterns and idle periods; each under a seeded schedule with extra line-level preemptions; a case = one schedule; "
                         "non-trivial = distinct (spec, seed)")
     return ctx.finish()
